@@ -130,9 +130,26 @@ def translate():
     srcc = ast.unparse(pcfg)
     if "sorted(pairs, key=lambda item: item[0])" not in srcc or "'plcid-' + _sha256_json(ordered)" not in srcc:
         raise TranslationError("compute_pipeline_config_id: unexpected shape")
-    # node semantic id drops "expr" keys
-    if "if k != 'expr'" not in ast.unparse(nsem):
-        raise TranslationError("compute_node_semantic_id: does not drop 'expr'")
+    # node semantic id drops the raw-source key "expr": either at any depth of the metadata (together with a recursive
+    # UI-only strip), or -- the repaired shape -- only inside the entries of param_expressions (UI-only strip at the top
+    # level only).  Any other shape fails closed.
+    nsrc = ast.unparse(nsem)
+    sui = find_def(tree, "_strip_ui_only", ast.FunctionDef)
+    sui_rec = any(isinstance(n, ast.Call) and ast.unparse(n.func) == "_strip_ui_only" for n in ast.walk(sui))
+    canon = find_def(nsem, "_canonicalize", ast.FunctionDef)
+    canon_rec = any(isinstance(n, ast.Call) and ast.unparse(n.func) == "_canonicalize" for n in ast.walk(canon))
+    unp = lambda n: ast.unparse(n).replace("(k, v)", "k, v").replace("(key, value)", "key, value")   # (3.8 vs 3.12 unparse)
+    csrc = unp(canon)
+    if "payload = _strip_ui_only(preproc_meta)" not in nsrc or "canonical = _canonicalize(payload)" not in nsrc:
+        raise TranslationError("compute_node_semantic_id: unexpected sanitising pipeline")
+    if sui_rec and canon_rec and "for k, v in obj.items() if k != 'expr'" in csrc:
+        scoped = False
+    elif (not sui_rec) and (not canon_rec) and "obj.get('param_expressions')" in csrc \
+            and "for k, v in entry.items() if k != 'expr'" in csrc and "{**obj, 'param_expressions': sanitized}" in csrc \
+            and "for key, value in obj.items() if key not in _UI_ONLY_KEYS" in unp(sui):
+        scoped = True
+    else:
+        raise TranslationError("compute_node_semantic_id: sanitiser is neither the any-depth nor the scoped shape")
 
     text = """(* GENERATED from %s by harness/translate/semantic_id.py — do not edit *)
 From Coq Require Import List String Bool. Import ListNotations.
@@ -147,7 +164,8 @@ Definition pipeline_sem_fields : list string := %s.
 Definition config_id_prefix : string := "plcid-".
 Definition semantic_id_prefix : string := "plsemid-".
 Definition node_sem_dropped_key : string := "expr".
+Definition node_sem_strip_scoped : bool := %s.
 Definition translation_failed := false.
 """ % (SRC, cq_list([BINOPS[o] for o in ops]), cq_list(ui_keys, cq_str), cq_str(node_prefix), cq_str(pipe_prefix),
-       cq_list(struct_keys, cq_str))
+       cq_list(struct_keys, cq_str), "true" if scoped else "false")
     return text, [path]
